@@ -11,7 +11,7 @@ def _runs():
     out = []
     for name, src in cand:
         out.append({'harness': name, 'mode': 'clear', 'sources': [src] + EX,
-                    'configs': both(['dbg-asan'], ['dbg-asan', 'rel-asan'])})
+                    'configs': both(['dbg-asan', 'rel-asan'])})
     return out
 
 def _ev(results, tier):
